@@ -41,7 +41,7 @@ type desc struct {
 	Ops             []op   `json:"ops"`
 }
 
-const keyF1 = "closeidle-closes-conn-with-request-in-hand"
+const keyF3 = "closeidle-drops-unflushed-response-of-pipelined-conn"
 
 // ---- scripted connection ----------------------------------------------------------------------------------------------------
 
@@ -291,6 +291,7 @@ type runner struct {
 	stuck       bool
 	pipelined   bool
 	heldAfterSd bool
+	topHeldAtSd bool // Shutdown was called while a connection goroutine was parked at the top of its loop
 	kinds       map[string]int
 }
 
@@ -569,6 +570,9 @@ func (rn *runner) do(o op) {
 			r.idleAtSd = ok && t != 0 && t <= now && !r.inHandler.Load() && r.heldRead == nil && r.heldTop == nil &&
 				r.c.get(func() bool { return r.c.blocked && !r.c.closed && len(r.c.in) == 0 })
 		}
+		if rn.pick(func(r *crec) bool { return r.heldTop != nil && r.c.get(func() bool { return r.c.topHeld }) }, 0) != nil {
+			rn.topHeldAtSd = true
+		}
 		ctx, cancel := context.WithCancel(context.Background())
 		rn.cancel = cancel
 		rn.sdState.Store(1)
@@ -655,8 +659,8 @@ func runCase(d desc) hlib.Case {
 		r.c.clientClose()
 	}
 	key := ""
-	if rn.heldAfterSd && !d.Deadlines {
-		key = keyF1
+	if rn.pipelined && rn.topHeldAtSd {
+		key = keyF3
 	}
 	kind := d.Class
 	if rn.stuck {
@@ -709,7 +713,8 @@ func corpus() []desc {
 		// the top-of-loop seam (ReadTimeout set): the connection is closed as idle while its goroutine is on its way to wait for the next request
 		{Class: "holdtop", Deadlines: true, Ops: ops("servestart accept:1 holdtop finish shutdown releasetop")},
 		{Class: "holdtop", Deadlines: true, Ops: ops("servestart accept:1 holdtop finish send shutdown releasetop")},
-		// FINDING closeidle-closes-conn-with-request-in-hand (no timeouts configured); with ReadTimeout the SetReadDeadline error prevents the handler
+		// regression for the repaired finding closeidle-closes-conn-with-request-in-hand (3ea360e): the request read just before closeIdleConns closed
+		// the connection is not served (the goroutine finds the connection untracked); with ReadTimeout the SetReadDeadline error ends the loop
 		{Class: "heldread", Ops: ops("servestart accept:1 finish sendheld shutdown release finish")},
 		{Class: "heldread", Deadlines: true, Ops: ops("servestart accept:1 finish sendheld shutdown release")},
 		{Class: "heldread", Ops: ops("servestart accept:1 finish sendheld release finish shutdown")},
@@ -720,13 +725,17 @@ func corpus() []desc {
 		{Class: "pipelined", Ops: ops("servestart accept:2 finish shutdown finish")},
 		{Class: "pipelined", Ops: ops("servestart accept:1 send send finish shutdown finish finish")},
 		{Class: "pipelined", Ops: ops("servestart accept:3 finish finish finish shutdown")},
+		// FINDING closeidle-drops-unflushed-response-of-pipelined-conn: answered, response held back for the buffered request, marked idle, closed by Shutdown
+		{Class: "pipetop", Deadlines: true, Ops: ops("servestart accept:2 holdtop finish shutdown releasetop")},
+		{Class: "pipetop", Deadlines: true, Ops: ops("servestart accept:3 finish holdtop finish shutdown releasetop")},
+		{Class: "pipetop", Deadlines: true, Ops: ops("servestart accept:2 holdtop finish releasetop shutdown finish")},
 	}
 }
 
 func gen(r *rand.Rand, i int) desc {
-	class := hlib.Pick(r, []string{"basic", "basic", "basic", "client", "expire", "holdtop", "heldread", "pipelined"})
+	class := hlib.Pick(r, []string{"basic", "basic", "basic", "client", "expire", "holdtop", "heldread", "pipelined", "pipetop"})
 	d := desc{Class: class, Deadlines: r.Intn(3) == 0, CloseOnShutdown: r.Intn(4) == 0}
-	if class == "holdtop" {
+	if class == "holdtop" || class == "pipetop" {
 		d.Deadlines = true
 	}
 	d.Ops = append(d.Ops, op{K: "servestart"})
@@ -743,7 +752,7 @@ func gen(r *rand.Rand, i int) desc {
 		switch {
 		case x < 30:
 			nreq := r.Intn(2)
-			if class == "pipelined" {
+			if class == "pipelined" || class == "pipetop" {
 				nreq = r.Intn(4)
 			}
 			d.Ops = append(d.Ops, op{K: "accept", N: nreq, C: r.Intn(2)})
@@ -751,7 +760,7 @@ func gen(r *rand.Rand, i int) desc {
 			d.Ops = append(d.Ops, op{K: "finish", C: r.Intn(4), B: r.Intn(5) == 0})
 		case x < 75:
 			switch class {
-			case "pipelined":
+			case "pipelined", "pipetop":
 				d.Ops = append(d.Ops, op{K: "send", C: r.Intn(4)})
 			case "heldread":
 				d.Ops = append(d.Ops, op{K: "sendheld", C: r.Intn(4)})
@@ -763,7 +772,7 @@ func gen(r *rand.Rand, i int) desc {
 			switch class {
 			case "client":
 				d.Ops = append(d.Ops, op{K: "clientclose", C: r.Intn(4)})
-			case "holdtop":
+			case "holdtop", "pipetop":
 				d.Ops = append(d.Ops, op{K: "holdtop", C: r.Intn(4)})
 			case "heldread":
 				d.Ops = append(d.Ops, op{K: "release", C: r.Intn(4)})
@@ -774,7 +783,7 @@ func gen(r *rand.Rand, i int) desc {
 			}
 		default:
 			switch class {
-			case "holdtop":
+			case "holdtop", "pipetop":
 				d.Ops = append(d.Ops, op{K: "releasetop", C: r.Intn(4)})
 			case "expire":
 				d.Ops = append(d.Ops, op{K: "expire"})
